@@ -396,7 +396,8 @@ def _splice(blocks, locs, cm, dest, target, caller_unwind, at, tag):
 
 
 OPTION_COMBINATORS = {"core::option::Option::<T>::map_or": "map_or", "core::option::Option::<T>::unwrap_or": "unwrap_or",
-                      "core::option::Option::<T>::map_or_else": None}
+                      "core::option::Option::<T>::map_or_else": None,
+                      "core::option::Option::<T>::is_some_and": "is_some_and", "core::option::Option::<T>::is_none_or": "is_none_or"}
 
 
 def desugar_option_calls(db, body):
@@ -420,8 +421,12 @@ def desugar_option_calls(db, body):
         unwind = t["unwind"]["cleanup"] if isinstance(t.get("unwind"), dict) else None
         payload_ty = [a for a in t["f"].get("args", []) if a.get("k") != "region"][0]
         cb = None
-        if kind == "map_or":
-            clop = t["args"][2]
+        dflt = t["args"][1] if len(t["args"]) > 1 else None
+        if kind in ("is_some_and", "is_none_or"):
+            # `opt.is_some_and(f)` = match opt { None => false, Some(x) => f(x) }; `is_none_or` the same with true
+            dflt = {"k": "const", "c": {"k": "int", "v": 1 if kind == "is_none_or" else 0}, "ty": {"k": "prim", "n": "bool"}, "s": "const bool"}
+        if kind in ("map_or", "is_some_and", "is_none_or"):
+            clop = t["args"][2] if kind == "map_or" else t["args"][1]
             cty = locs[clop["p"]["l"]]["ty"] if clop.get("k") in ("move", "copy") and not clop["p"]["p"] else None
             cb = db.by_path.get(cty["def"]) if cty is not None and cty.get("k") == "closure" else None
             if cb is None or cb["mir"]["arg_count"] != 2:
@@ -429,7 +434,7 @@ def desugar_option_calls(db, body):
         # discriminant + switch
         locs.append({"ty": {"k": "prim", "n": "isize"}, "s": "isize"})
         ld = len(locs) - 1
-        none_b = {"cleanup": False, "stmts": [{"k": "assign", "lhs": copy.deepcopy(t["dest"]), "rv": {"k": "use", "op": copy.deepcopy(t["args"][1])}, "at": t.get("at")}],
+        none_b = {"cleanup": False, "stmts": [{"k": "assign", "lhs": copy.deepcopy(t["dest"]), "rv": {"k": "use", "op": copy.deepcopy(dflt)}, "at": t.get("at")}],
                   "term": {"k": "goto", "target": t["target"], "at": t.get("at"), "exp": t.get("exp")}, "inl": "desugar"}
         blocks.append(none_b)
         none_i = len(blocks) - 1
